@@ -76,7 +76,7 @@ def main():
             {'name': 'solversim', 'path': 'dst/solver', 'serves_properties': ['C09', 'C10'], 'kind_free_text': 'scripted residual-norm adversary and Newton-step adversary around real solver loops'},
             {'name': 'simdisk+recsim', 'path': 'dst/rec, dst/simdisk', 'serves_properties': ['C17', 'C18', 'C19'], 'kind_free_text': 'LD_PRELOAD I/O trace shim, crash-image enumeration, shadow recorder'},
             {'name': 'drvsim', 'path': 'dst/drv', 'serves_properties': ['C21', 'C23'], 'kind_free_text': 'real optimizer / DOE driver calling back into failing stub models'},
-            {'name': 'worldsim', 'path': 'dst/world', 'serves_properties': ['C01', 'C02', 'C04', 'C07', 'C08', 'C11', 'C24', 'C31', 'C32'], 'kind_free_text': 'generated Problems under API-call/fault histories vs exact reference, twins, interleaving'},
+            {'name': 'worldsim', 'path': 'dst/world', 'serves_properties': ['C01', 'C02', 'C04', 'C07', 'C08', 'C11', 'C12', 'C24', 'C31', 'C32'], 'kind_free_text': 'generated Problems under API-call/fault histories vs exact reference, twins, interleaving'},
         ],
         'checks': checks,
         'not_applicable': na,
